@@ -80,3 +80,25 @@ func loadReplayInto(path string, v any) {
 	}
 	must(json.Unmarshal(b, v))
 }
+
+// loadReplay reads any case type from a replay file (violation record with "replay", possibly wrapped
+// once more in {"case": …}, or the bare case).
+func loadReplay(c any) {
+	b, err := os.ReadFile(replayFile)
+	must(err)
+	var wrap struct {
+		Replay json.RawMessage `json:"replay"`
+	}
+	if json.Unmarshal(b, &wrap) == nil && len(wrap.Replay) > 0 {
+		var inner struct {
+			Case json.RawMessage `json:"case"`
+		}
+		if json.Unmarshal(wrap.Replay, &inner) == nil && len(inner.Case) > 0 {
+			must(json.Unmarshal(inner.Case, c))
+			return
+		}
+		must(json.Unmarshal(wrap.Replay, c))
+		return
+	}
+	must(json.Unmarshal(b, c))
+}
